@@ -197,6 +197,11 @@ def plan(tier, seed):
             for o in ("error", "pending"):
                 prog = {"features": [G.feature([G.scenario([o, "pass"]) for _ in range(6)], tags)], "family": "excclass"}
                 res.append((with_o2(prog), [G.cfg(), G.cfg(cont=True)], [[0, 0]]))
+                # ... and alone in the run (k passing steps first: one program per residue of the rotation), so that the
+                # run's verdict depends on this one step
+                for k in range(6):
+                    prog = {"features": [G.feature([G.scenario(["pass"] * k + [o])], tags)], "family": "excclass"}
+                    res.append((with_o2(prog), [G.cfg()], [[0, 0]]))
         return res
 
     def with_literal(p, prob):
@@ -349,7 +354,7 @@ def shared(chk, part="core"):
     """Run (or load) the shared stage for this tree / tier / seed.  Returns a dict:
        n_runs, tlc: [{module,cfg,distinct,generated,wall,coverage}], verdicts: {clause: [ {key, ...} ]},
        divergences, samples, design_violations"""
-    key = tree_key({"tier": chk.tier, "seed": chk.seed, "part": part, "v": 30})
+    key = tree_key({"tier": chk.tier, "seed": chk.seed, "part": part, "v": 31})
     os.makedirs(CACHE, exist_ok=True)
     # one entry per (part, tier, repository location): runs against a mutated copy must not evict /repo's entry
     prefix = "%s-%s-%s-" % (part, chk.tier, hashlib.sha256(REPO.encode()).hexdigest()[:8])
